@@ -266,8 +266,8 @@ PROPS["C18"] = dict(
 
 PROPS["C03"] = dict(
     level="model_checking", engine="mcx", title="any sequence of API calls on a live instance is memory-safe and terminates",
-    technique="explicit-state model checking of the whole exported C API (BFS by history replay under AddressSanitizer with annotated vectors and strict bounds): every exported function with boundary-valued arguments from 7 start states; deeper levels on an out-of-range real-time subset, on the real emulator cores, and on bank create/remove/lookup histories over ids that collide in the bank map (against a set model, to closure of the reachable structure)",
-    level_text="Every sequence of up to D calls over ~400 boundary-valued operation instances covering all 90 exported functions (the op table is checked against include/opnmidi.h on every run), from 7 start states, is executed on the library. "
+    technique="explicit-state model checking of the whole exported C API (BFS by history replay under AddressSanitizer with annotated vectors and strict bounds): every exported function with boundary-valued arguments from 8 start states; deeper levels on an out-of-range real-time subset, on the real emulator cores, and on bank create/remove/lookup histories over ids that collide in the bank map (against a set model, to closure of the reachable structure)",
+    level_text="Every sequence of up to D calls over ~400 boundary-valued operation instances covering all 90 exported functions (the op table is checked against include/opnmidi.h on every run), from 8 start states, is executed on the library. "
                "Oracle: no sanitizer report, fatal signal, abort or uncaught exception, every call inside its CPU budget, and calls documented to fail (bad chip count, emulator, device id, bank id, indices, negative sizes, unsupported formats, malformed files, NULL device) return their error value.",
     level_note="the statement's 400-call horizon is not reached: what is claimed is every sequence up to the completed depth from each start state; pointers other than the device always reference valid, exactly sized objects (malloc'ed at the request size so that ASan red zones sit directly behind them); NDEBUG build as shipped",
     legs=[
